@@ -69,7 +69,7 @@ impl Check for C05 {
             "replies larger than the 1024 byte datagram the client reads are observe-only".into(),
         ]
     }
-    fn total_cases(&self, tier: Tier) -> u64 { tier.pick(150_000, 2_000_000) }
+    fn total_cases(&self, tier: Tier) -> u64 { tier.pick(600_000, 2_000_000) }
     fn run_case(&mut self, cx: &mut Cx) {
         let ver = [Ver::One, Ver::Two, Ver::Three][(cx.idx % 3) as usize];
         let np = match cx.rng.below(8) {
